@@ -1,6 +1,7 @@
 import Driver.SimCmd
 import Driver.UpdCmd
 import Driver.LexCmd
+import Driver.LoaderCmd
 /-!
 # Line-protocol driver over the executable models
 
@@ -17,6 +18,7 @@ def step (s : DState) (line : String) : DState × String :=
   | "sim" :: args => let (st, out) := simStep' s.sim args; ({ s with sim := st }, out)
   | "upd" :: args => (s, updStep args)
   | ["lex", h] => (s, lexLine h)
+  | ["loader", h] => (s, loaderLine h)
   | _ => (s, "bad-op")
 
 partial def loop (h : IO.FS.Stream) (out : IO.FS.Stream) (s : DState) : IO Unit := do
